@@ -50,7 +50,8 @@ INIT_CODE = {
 MUT_CODE = {
     "radius": "%(T)s.Fe.covalent_radius = 9.99\n%(T)s.Cu.covalent_radius_uncertainty = 0.5",
     "crystal": "%(T)s.Fe.crystal_structure['a'] = 99.0\n%(T)s.Cu.crystal_structure = {'symmetry': 'verif'}",
-    "neutron": "%(T)s.Fe.neutron.b_c = 99.0\n%(T)s.Ni[58].neutron.absorption = 1e3\n%(T)s.Sm.neutron.nsf_table[1][0] = 7.0",
+    "neutron": "%(T)s.Fe.neutron.b_c = 99.0\n%(T)s.Ni[58].neutron.absorption = 1e3\n%(T)s.Sm.neutron.nsf_table[1][0] = 7.0\n"
+               "%(T)s.H.neutron.b_c = -1.0\n%(T)s.O.neutron.b_c_complex = 5.0-0.5j\n%(T)s.O.neutron.b_c = 5.0",
     "activation": "%(T)s.Fe[58].neutron_activation[0].thermalXS = 99.0\n%(T)s.Co[59].neutron_activation.append(%(T)s.Fe[58].neutron_activation[0])",
     "xray": "%(T)s.Fe.xray.newfield = 5\n%(T)s.Cu.xray.sftable[1][10] = 1234.5",
     "lines": "%(T)s.Cu.K_alpha = 9.99\n%(T)s.Fe.K_beta1 = 8.88",
@@ -73,6 +74,10 @@ PUB = {
     "mff": [("pub:get:mff", "pt.Fe.magnetic_ff"), ("pub:iso:mff", "hasattr(pt.Fe[56], 'magnetic_ff')"),
             ("pub:calc:mff", "pt.Fe.magnetic_ff[2].j0_Q(1.0)")],
 }
+TCALC_CODE = ("from periodictable import nsf as _n\n_T = %s\n"
+              "(_n.D2O_match('C3H4H[1]NO@1.29n', table=_T), _n.neutron_sld('H2O', density=1, wavelength=4.75, table=_T), "
+              "_n.D2O_sld('C3H4H[1]NO@1.29n', volume_fraction=0.3, D2O_fraction=0.5, table=_T), "
+              "_n.neutron_scattering('Fe2O3', density=5.2, table=_T))")
 FORMULAS = ["H2O", "Fe[56]{2+}2O3", "D2O@1n", "CaCO3+6H2O", "10 wt% NaCl@2.16 // H2O@1", "(Fe{3+}(OH)3)2 T2O"]
 
 
@@ -177,6 +182,11 @@ class PrivModel(histmc.HistModel):
                     evs.append(Event("init:%s:%s" % (g, t), INIT_CODE[g] % ("globals()[%r]" % t) + "\n'done'", True, g))
                 for name, code in PUB[g]:
                     evs.append(Event(name, code, True, g))
+                if g == "neutron":
+                    # calculators that take a table= keyword, on the private tables and on the public one
+                    for t in self.tables:
+                        evs.append(Event("tcalc:neutron:%s" % t, TCALC_CODE % ("globals()[%r]" % t), True, g))
+                    evs.append(Event("pub:tcalc:neutron", TCALC_CODE % "pt.elements", True, g))
                 for t in self.tables:
                     evs.append(Event("read:%s:%s" % (g, t), "_read(globals(), %r, %r)" % (t, g), True, g))
                     evs.append(Event("mut:%s:%s" % (g, t), "_mut(globals(), %r, %r)" % (t, g), True, g))
@@ -191,6 +201,8 @@ class PrivModel(histmc.HistModel):
         parts = n.split(":")
         if parts[0] == "new":
             return n not in hist
+        if parts[0] == "tcalc":
+            return "init:%s:%s" % (parts[1], parts[2]) in hist
         if parts[0] in ("init", "read", "mut"):
             g, t = parts[1], parts[2]
             if "new:%s" % t not in hist:
@@ -346,6 +358,9 @@ def canonical(model):
                 try:
                     exec(INIT_CODE[g] % "T", dict(T=T))
                     exec(MUT_CODE[g] % dict(T="T"), dict(T=T))
+                    if g == "neutron":
+                        ns["Tc"] = T
+                        mutated["tcalc"] = model.observe(Event("x", TCALC_CODE % "globals()['Tc']"), ns)
                     for o in (0, 1):
                         mutated[o][g] = dict(c09.digest_table(ns["pt"], T, o, groups=[g], calcs=False))[g]
                 except Exception as e:
@@ -368,6 +383,10 @@ class Oracle(object):
         p = name.split(":")
         if p[0] == "pub":
             return self.can_obs[name]
+        if p[0] == "tcalc":
+            if ("mut:neutron:%s" % p[2]) in hist:
+                return self.can_mut.get("tcalc")
+            return self.can_obs["pub:tcalc:neutron"]       # an uncustomised private table computes what the public one does
         if p[0] == "new":
             return "ok:'created'"
         if p[0] == "init":
@@ -398,6 +417,10 @@ class Oracle(object):
             elif p[0] == "read":
                 lines.append("print('read %s of %s:', %s.Fe.%s if hasattr(%s.Fe, %r) else None)" % (
                     p[1], p[2], p[2], READ_ATTR[p[1]], p[2], READ_ATTR[p[1]]))
+            elif p[0] == "tcalc" or n == "pub:tcalc:neutron":
+                T = "pt.elements" if p[0] == "pub" else p[2]
+                lines.append("from periodictable import nsf; print(nsf.D2O_match('C3H4H[1]NO@1.29n', table=%s), "
+                             "nsf.neutron_sld('H2O', density=1, wavelength=4.75, table=%s))" % (T, T))
             elif p[0] == "formula":
                 T = "pt.elements" if p[1] == "public" else p[1]
                 lines.append("print([(a, a.table if hasattr(a,'table') else None) for a in pt.formula('Fe[56]{2+}2O3', table=%s).atoms])" % T)
@@ -424,6 +447,8 @@ class Oracle(object):
                 kind = c09.failure_kind(want, obs) if p[0] in ("pub",) else (
                     "raises-" + obs.split(":")[1] if obs.startswith("EXC:") else "differs")
                 who = "public" if p[0] == "pub" else p[0]
+                if want is None:
+                    want = "<canonical customised table could not be built>"
                 acc.violation("%s:%s:%s" % (who, self.evs[name].group, kind),
                               dict(history=list(hist), event=name), expected=want[:300], observed=obs[:300],
                               standalone=self.snippet(hist, name))
